@@ -673,10 +673,12 @@ static void run_long(long n)
 		else if (!c.eof)
 			err = vf::str("connection ", i + 1, " of ", total, " (one after the other): not closed after serve() returned");
 	}
-	std::atomic<bool> stop_done{false};
-	std::thread stopper([&]() {
+	// (the flag lives on the heap: a stopper that is given up on below may still finish later)
+	auto stop_done_p = std::make_shared<std::atomic<bool>>(false);
+	std::atomic<bool>& stop_done = *stop_done_p;
+	std::thread stopper([srv, stop_done_p]() {
 		srv->stop(true);
-		stop_done = true;
+		*stop_done_p = true;
 	});
 	double t0 = vf::now();
 	for (int k = 0; !stop_done && vf::now() - t0 < 60; k++) {
